@@ -50,6 +50,16 @@ CHECKS = {
    text="Scope.v proves for every history of (name,type) declarations: the scope lists them in entry order and its type is the product of their types; lookup finds a name iff it was declared; selection by type yields the first declaration with that name and type; each declaration's master is that first one and its decl-set is exactly the declarations sharing name and type, in entry order; homogeneous scopes report position = index. GenCmp shows that, in the current source, the overload table and the entry tables are searched with key comparators (the defect fixed in 12f6b4a is exactly a violation of that obligation). 550 (quick) / 8000 (thorough) histories are run on the real scopes and on the extracted model.",
    note="Trusted: Coq kernel, extractor, extraction, scope_driver, ASan. Modelled: decl_factory farms and the intrusive chain as lists.",
    ref="DESIGN.md §6 C07"),
+ "C16": dict(
+   technique="Coq proof (finite-map lemmas by induction over binding sequences) + extracted-model/implementation correspondence with an independent oracle",
+   text="Subst.v: an elementary substitution maps its parameter to its value and every other parameter to itself; a general substitution built from any sequence of bindings (rebinding included) yields, for every queried parameter, the latest binding or the parameter itself, and holds one binding per parameter. The driver builds elementary and general substitutions over the parameters of two mappings and queries parameters inside and outside the domain; results are compared with the extracted model and with the finite-map oracle.",
+   note="Trusted: Coq kernel, extraction, subst_driver. std::map is modelled by an association list.",
+   ref="DESIGN.md §6 C16"),
+ "C15": dict(
+   technique="Coq proofs about the denotation of the bodies of the inline derived operations, which are re-translated from the public headers (clang AST -> expression trees) on every run, under an arbitrary interpretation of the primitive accessors; exhaustive side-by-side evaluation on the zoo",
+   text="193 inline operations are translated; Properties_C15.v proves, for ANY interpretation of the pure-virtual accessors (hence any node in any state): Sequence::empty/begin/end/position and the Iterator algebra (iteration from begin to end visits size() elements and agrees with positional access), Product/Sum/Expr_list/Scope/Parameter_list helpers, Udt::scope and members(), Block::body and try_block (true exactly when handlers are present), Template::parameters/result, Parameter::default_value, Type::linkage, and that ==/!= on Logogram, Linkage, Calling_convention, Basic_specifier/qualifier are identity of the underlying String/logogram (an equivalence); 87 named accessors are checked to be exactly their documented primitive. A changed body breaks the corresponding theorem; the driver then exhibits a node on which helper and definition differ.",
+   note="Trusted: the AST-to-expression translator (fails closed: unknown shapes become CUnknown, which evaluates to an error value), Coq kernel. The denotation treats & and * as identity on objects and models only the two aggregates the interface defines (Iterator).",
+   ref="DESIGN.md §6 C15"),
 }
 
 NOT_YET = {}
